@@ -162,6 +162,18 @@ def WAITPRE(key):
     return ("waitpre", key)
 
 
+def OVERLAP(spec_a, spec_b, inside, between):
+    return ("overlap", spec_a, spec_b, inside, between)
+
+
+def ENTER(spec, key):
+    return ("enter", spec, key)
+
+
+def LEAVE(spec, key):
+    return ("leave", spec, key)
+
+
 def STASH(key, td):
     return ("stash", key, td)
 
@@ -425,6 +437,11 @@ class HBatch(_batching.BatchBase):
                 elif plan == "flushraise_base":
                     if to_raise is None:
                         to_raise = BE(("flush", it.sid))
+                elif plan == "cancelself":
+                    # the flush body cancels the batch it is flushing (public cancel()) and returns normally:
+                    # every item not answered so far fails with that error
+                    self.cancel(E(("cancelself", it.sid)))
+                    break
                 else:
                     raise AssertionError("bad plan")
             if to_raise is not None:
@@ -749,6 +766,47 @@ def run_node(rt, ts, node):
         return None
     if k == "call":     # ('call', fn) arbitrary harness callback fn(rt, ts)
         node[1](rt, ts)
+        return None
+    if k == "overlap":  # ('overlap', specA, specB, inside, between): `with ExitStack() as st: with a: st.enter_context(b);
+        #                     inside` -> a is left first, then `between` runs with only b open, then b is left
+        import contextlib
+        specA, specB = node[1], node[2]
+        a = make_ctx(rt, ts, specA)
+        b = make_ctx(rt, ts, specB)
+        r = None
+        try:
+            with contextlib.ExitStack() as stack:
+                if specA[0] == "rec":
+                    ts.open_ctx.append(specA[1])
+                try:
+                    with a:
+                        stack.enter_context(b)
+                        if specB[0] == "rec":
+                            ts.open_ctx.append(specB[1])
+                        r = yield from run_node(rt, ts, node[3])
+                finally:
+                    if specA[0] == "rec" and specA[1] in ts.open_ctx:
+                        ts.open_ctx.remove(specA[1])
+                if r is None:
+                    r = yield from run_node(rt, ts, node[4])
+        finally:
+            if specB[0] == "rec" and specB[1] in ts.open_ctx:
+                ts.open_ctx.remove(specB[1])
+        return r
+    if k == "enter":    # ctx.__enter__() without a with-statement (ExitStack style): blocks may overlap
+        spec = node[1]
+        c = make_ctx(rt, ts, spec)
+        ts.kept["ctx:%s" % (node[2],)] = c
+        c.__enter__()
+        if spec[0] == "rec":
+            ts.open_ctx.append(spec[1])
+        return None
+    if k == "leave":
+        c = ts.kept["ctx:%s" % (node[2],)]
+        spec = node[1]
+        if spec[0] == "rec":
+            ts.open_ctx.remove(spec[1])
+        c.__exit__(None, None, None)
         return None
     if k == "waitpre":  # wait (synchronously, inside this task) for a task that was created at top level
         t = rt.precreated[node[1]]
@@ -1087,11 +1145,12 @@ class Ref(object):
         self.pre = {}                   # key -> TaskD of tasks created at top level
         self.blocked = {}               # sid -> whether the task had to wait for a flush
         self.na_depth = 0
+        self.pause_raisers = []
 
     def lookup(self, which):
-        for w, v in reversed(self.scope):
-            if w == which:
-                return v
+        for ent in reversed(self.scope):
+            if ent[0] == which:
+                return ent[1]
         if which == "attr":
             return self.sv_init[0] if self.sv_init else 0
         return self.sv_init[which]
@@ -1108,8 +1167,8 @@ class Ref(object):
         raised = self.rt.flush_log[idx]["raised"] if idx is not None else None
         if raised is not None:
             return ("e", desc_of(raised))
-        if plan in ("flushraise", "flushraise_base"):
-            return ("e", ("?",))        # the flush was expected to raise but did not: mismatch
+        if plan in ("flushraise", "flushraise_base", "cancelself"):
+            return ("e", ("?",))        # the flush was expected to raise / cancel but did not: mismatch
         return ("e", ("A",))
 
     def slot(self, st, slot, idx):
@@ -1152,6 +1211,8 @@ class Ref(object):
         self.evaluated.append(sid)
         saved_scope = list(self.scope)
         saved_na = self.na_depth
+        saved_pr = self.pause_raisers
+        self.pause_raisers = []
         self.na_depth = 0
         try:
             r = self.node(st, td.body)
@@ -1164,6 +1225,7 @@ class Ref(object):
         finally:
             self.scope = saved_scope
             self.na_depth = saved_na
+            self.pause_raisers = saved_pr
         self.blocked[sid] = st["blocked"]
         return out, st["blocked"], st["depth"]
 
@@ -1191,6 +1253,9 @@ class Ref(object):
                 st["blocked"] = True
                 if self.na_depth > 0:
                     raise RefAbort(("A",))
+                if self.pause_raisers:
+                    # a context whose first pause() raises: the task fails when it is suspended inside the block
+                    raise RefAbort(self.pause_raisers[-1])
             for o in outs:
                 if o[0] == "e":
                     raise RefErr(o[1])
@@ -1207,9 +1272,30 @@ class Ref(object):
                 pushed = True
             elif spec[0] == "na":
                 self.na_depth += 1
+            praise = spec[0] == "rec" and len(spec) > 2 and spec[2] is not None and spec[2] == ("pause", 1)
+            if praise:
+                self.pause_raisers.append(("E", ("ctx", spec[1], "pause", 1)))
             try:
-                return self.node(st, node[2])
+                try:
+                    r = self.node(st, node[2])
+                except RefErr:
+                    if praise:
+                        # the block is left by an exception: __exit__ pauses the context for the first time, that
+                        # pause raises, and its exception replaces the one that was propagating
+                        self.pause_raisers.pop()
+                        praise = False
+                        raise RefErr(("E", ("ctx", spec[1], "pause", 1)))
+                    raise
+                if praise:
+                    # never suspended inside the block: the first pause is the one of __exit__, an ordinary
+                    # exception in the body
+                    self.pause_raisers.pop()
+                    praise = False
+                    raise RefErr(("E", ("ctx", spec[1], "pause", 1)))
+                return r
             finally:
+                if praise:
+                    self.pause_raisers.pop()
                 if pushed:
                     self.scope.pop()
                 if spec[0] == "na":
@@ -1253,6 +1339,47 @@ class Ref(object):
         if k == "orphan":
             return None
         if k in ("call", "cancel", "stash"):
+            return None
+        if k == "overlap":
+            specA, specB = node[1], node[2]
+
+            def push(spec):
+                if spec[0] == "sv":
+                    self.scope.append((spec[1], spec[2]))
+                    return True
+                if spec[0] == "attr":
+                    self.scope.append(("attr", spec[1]))
+                    return True
+                return False
+            pa = push(specA)
+            pb = push(specB)
+            try:
+                r = self.node(st, node[3])
+            except BaseException:
+                if pb:
+                    self.scope.pop()
+                if pa:
+                    self.scope.pop()
+                raise
+            # a is left first: remove a's entry (it is below b's)
+            if pa:
+                self.scope.pop(-2 if pb else -1)
+            try:
+                if r is None:
+                    r = self.node(st, node[4])
+            finally:
+                if pb:
+                    self.scope.pop()
+            return r
+        if k == "enter":
+            spec = node[1]
+            if spec[0] == "sv":
+                self.scope.append((spec[1], spec[2], node[2]))
+            elif spec[0] == "attr":
+                self.scope.append(("attr", spec[1], node[2]))
+            return None
+        if k == "leave":
+            self.scope = [x for x in self.scope if not (len(x) > 2 and x[2] == node[2])]
             return None
         if k == "waitpre":
             o, _b, _d = self.task(self.pre[node[1]], "PRE:%s" % node[1])
